@@ -186,7 +186,8 @@ class NewtonCG(DescentMinimizer):
 
     def get_descent_direction(self, energy, old_value=None):
         if old_value is None:
-            ic = GradientNormController(iteration_limit=5)
+            ic = GradientNormController(tol_rel_gradnorm=1e-10,
+                                        iteration_limit=5)
         else:
             ediff = self._alpha*(old_value-energy.value)
             ic = AbsDeltaEnergyController(
